@@ -295,6 +295,8 @@ class CliWorkers(core.Layer):
         self.items = [(wi, k, mode) for wi in range(len(self.worlds)) for k in cpus for mode in (('all',) if wi else ('all', 'joined'))]
         self.worlds.append(many_world())
         self.items += [(len(self.worlds) - 1, k, 'all') for k in (2, 3)]
+        # the XMAP on standard output (no -o): whatever a worker prints ends up in it
+        self.items += [(len(self.worlds) - 1, k, 'stdout') for k in (2, 3)]
         # the same command a second time INTO THE SAME OUTPUT PATH (the files of the first run are still there)
         self.items += [(wi, 'again', mode) for wi in (0, 2) for mode in ('all', 'joined')]
         self.bounds = dict(worlds=len(self.worlds), cpus=list(cpus), baseline='-c 1')
@@ -304,7 +306,10 @@ class CliWorkers(core.Layer):
     def prepare(self):
         for wi, w in enumerate(self.worlds):
             for mode in sorted({m for i, k, m in self.items if i == wi}):
-                rc, err, raw = driver.run_cli(w, mode, cpus=1)
+                if mode == 'stdout':
+                    rc, err, raw = driver.run_cli(w, 'best', cpus=1, to_stdout=True)
+                else:
+                    rc, err, raw = driver.run_cli(w, mode, cpus=1)
                 self.base[(wi, mode)] = (rc, {k: driver.strip_echo(v) for k, v in raw.items()}, err[-300:])
 
     def nblocks(self):
@@ -326,6 +331,8 @@ class CliWorkers(core.Layer):
             rc, err, raw = driver.run_cli(world, mode, cpus=2, directory=d)
             if rc == 0:
                 rc, err, raw = driver.run_cli(world, mode, cpus=2, directory=d, keep_outputs=True)
+        elif mode == 'stdout':
+            rc, err, raw = driver.run_cli(world, 'best', cpus=k, to_stdout=True)
         else:
             rc, err, raw = driver.run_cli(world, mode, cpus=k)
         files = {x: driver.strip_echo(v) for x, v in raw.items()}
@@ -348,7 +355,7 @@ class CliWorkers(core.Layer):
 
     def replay(self, case):
         w = case['world']
-        rc, err, raw = driver.run_cli(w, case['mode'], cpus=1)
+        rc, err, raw = driver.run_cli(w, case['mode'], cpus=1) if case['mode'] != 'stdout' else driver.run_cli(w, 'best', cpus=1, to_stdout=True)
         return self.run_item(w, (rc, {k: driver.strip_echo(v) for k, v in raw.items()}, err[-300:]), case['cpus'], case['mode'], None)
 
 
